@@ -182,8 +182,10 @@ def Entry.wf (e : Entry) : Bool :=
       | .none => trimmed e.value && !e.value.contains 35 && !e.value.contains 59
                  && e.value.head? != some 34 && e.value.head? != some 39
       -- quoted: may be empty; blanks directly inside the quotes would be trimmed, so there are none
-      | .single => !e.value.contains 39 && (e.value.isEmpty || trimmed e.value)
-      | .double => !e.value.contains 34 && (e.value.isEmpty || trimmed e.value))
+      -- (a quoted value that is itself just the other kind of empty quotes, "''" or '""', is emptied by the
+      -- parser: excluded here and reported as an observation)
+      | .single => !e.value.contains 39 && (e.value.isEmpty || trimmed e.value) && e.value != [34, 34]
+      | .double => !e.value.contains 34 && (e.value.isEmpty || trimmed e.value) && e.value != [39, 39])
   && (match e.comment with | none => true | some c => c.wf)
 
 def Body.wf : Body → Bool
